@@ -255,7 +255,11 @@ func runConn(cs *caseT) *outcome {
 		l.add(evT{"ev": "Cut"})
 		c.CloseWrite()
 	case "server-close":
-		// the operator shuts the server down while the connection is in whatever mode it reached
+		// the operator shuts the server down while the connection is in whatever mode it reached; on a
+		// loaded machine the serve goroutine may not even have started yet: give it the time to greet
+		for i := 0; i < 20000 && atomic.LoadInt64(&got) == 0; i++ {
+			time.Sleep(100 * time.Microsecond)
+		}
 		last, still := int64(-1), 0
 		for i := 0; i < 4000 && still < 3; i++ {
 			time.Sleep(100 * time.Microsecond)
@@ -304,7 +308,10 @@ func runConn(cs *caseT) *outcome {
 				}
 			}
 			l.mu.Unlock()
-			if closed || !started || time.Now().After(deadline) {
+			// NewSession never fails here, so every connection that was accepted gets a session: a
+			// history without NewSession only means that the serve goroutine has not run yet
+			_ = started
+			if closed || time.Now().After(deadline) {
 				break
 			}
 			time.Sleep(50 * time.Microsecond)
